@@ -53,14 +53,14 @@ func c01observe(f QFrame) c01snap {
 				if p == nil {
 					col = append(col, c06cell{typ: "string", null: true})
 				} else {
-					col = append(col, c06cell{typ: "string", s: *p})
+					col = append(col, c06cell{typ: "string", s: vxClone(*p)})
 				}
 			case "enum":
 				p := f.MustEnumView(name).ItemAt(r)
 				if p == nil {
 					col = append(col, c06cell{typ: "enum", null: true})
 				} else {
-					col = append(col, c06cell{typ: "enum", s: *p})
+					col = append(col, c06cell{typ: "enum", s: vxClone(*p)})
 				}
 			}
 		}
@@ -245,7 +245,7 @@ func VX_C01_persist() {
 	sc := vxCol{typ: "string", s: make([]string, P), null: make([]bool, P)}
 	ec := vxCol{typ: "enum", s: make([]string, P), null: make([]bool, P)}
 	for k := 0; k < P; k++ {
-		sc.s[k] = []string{"x", "", "Yy", "q"}[k%4]
+		sc.s[k] = []string{"x", "", "Yy", "qABCDE"}[k%4] // total length > P: the blob is grown by append and keeps spare capacity
 		sc.null[k] = k == 1
 		ec.s[k] = []string{"b", "c", "", "a"}[k%4]
 		ec.null[k] = k%4 == 2
@@ -285,6 +285,15 @@ func VX_C01_persist() {
 		target := family[len(family)-1]
 		if vx.HasParam("on0") && step > 0 {
 			target = f0 // second step applied to the shared ancestor, not to the newest member
+		}
+		// "<op>@tail" / "<op>@base": the operation is applied to a sibling view of the same storage with
+		// another row set / row order (what one frame appends to shared storage another may have used already)
+		if strings.HasSuffix(op, "@tail") {
+			op = strings.TrimSuffix(op, "@tail")
+			target = f0.Slice(1, f0.Len())
+		} else if strings.HasSuffix(op, "@base") {
+			op = strings.TrimSuffix(op, "@base")
+			target = base
 		}
 		fam := make([]interface{}, len(family))
 		for k := range family {
